@@ -51,7 +51,8 @@ def path_segment(draw: Any) -> str:
         elif k == 3:
             parts.append(draw(st.sampled_from(list(SUBDELIMS))))
         elif k == 4:
-            ch = draw(st.sampled_from(["%20", "%2F", "%2f", "%25", "%3F", "%23", "%7e", "%41"]))
+            ch = draw(st.sampled_from(["%20", "%2F", "%2f", "%25", "%3F", "%23", "%7e", "%41",
+                                       "%00", "%2E%2E", "%0A"]))
             parts.append(ch)
         else:
             ch = draw(st.characters(min_codepoint=0x80, max_codepoint=0x2FFF,
@@ -81,6 +82,8 @@ def query(draw: Any) -> Any:
 def header_list(draw: Any, h2: bool = False, max_size: int = 6) -> List[list]:
     out = []
     n = draw(st.integers(0, max_size))
+    if max_size >= 6 and draw(st.integers(0, 24)) == 0:
+        n = draw(st.integers(40, 90))  # now and then a request with very many small fields
     names: List[str] = []
     for _ in range(n):
         if names and draw(st.integers(0, 3)) == 0:
@@ -189,6 +192,8 @@ def h1_request(draw: Any, allow_head: bool = False, big: bool = True,
         "trailers": draw(st.lists(st.sampled_from([["x-checksum", "abc"], ["x-t", ""]]),
                                   max_size=2)) if framing == "chunked" else [],
     }
+    if req["method"] == "OPTIONS" and draw(st.integers(0, 2)) == 0:
+        req["path"], req["query"] = "*", None  # asterisk-form (RFC 7230 5.3.4)
     return req
 
 
@@ -202,7 +207,8 @@ def h2_request(draw: Any, allow_head: bool = False, big: bool = True) -> Dict[st
         # whole window long before the body is through
         size = draw(st.sampled_from([40, 150]))
         frames = [size] * min(2000, body["len"] // size + 1)
-    authority = draw(st.sampled_from(["example.com", "localhost:8080", "a.b"]))
+    authority = draw(st.sampled_from(["example.com", "localhost:8080", "a.b", "[::1]:8443",
+                                      "EXAMPLE.com", "xn--bcher-kva.example", "10.0.0.1"]))
     headers = draw(header_list(h2=True))
     if draw(st.integers(0, 4)) == 0:
         # a literal host header next to :authority (same value: legal, what gateways that
